@@ -37,24 +37,17 @@ theorem mod_inner_fits {m a b : Int} (hm : Mult m) (hp : fits64 (a * m)) : fits6
     have : a * m ≤ a.tdiv b * b * m := by nlinarith
     omega
 
-theorem mod_eq {m a b : Int} (hm : Mult m) (ha : fits64 a) (hb : b ≠ 0) (hp : fits64 (a * m))
-    (hq : fits64 ((a * m).tdiv b)) : mod m a b = some (a.tmod b) := by
-  unfold mod
-  rw [div_eq hb hp hq]
-  simp only
-  have ht : trunc m (fxDiv m a b) = a.tdiv b * m := by
-    rw [trunc_eq hm (show fits64 (fxDiv m a b) from hq)]; unfold fxTrunc fxDiv; rw [nest m a b hm.pos hb]
-  rw [ht, mul_eq hm (mod_inner_fits hm hp)]
-  unfold fxMul
-  have : (b * (a.tdiv b * m)).tdiv m = b * a.tdiv b := by
-    rw [← Int.mul_assoc]; exact Int.mul_tdiv_cancel _ (by have := hm.pos; omega)
-  rw [this]
-  have h1 := Int.tmod_add_tdiv_mul a b
-  have e : a - b * a.tdiv b = a.tmod b := by
-    have : a.tdiv b * b = b * a.tdiv b := Int.mul_comm _ _
-    omega
-  unfold sub
-  rw [e, wrap64_of_fits (fits64_tmod ha)]
+theorem rem_eq {a b : Int} (ha : fits64 a) : rem a b = a.tmod b := by
+  unfold rem; exact wrap64_of_fits (fits64_tmod ha)
+
+/-- **Mod** (`f % value`) is the truncated remainder of the raw values for EVERY dividend and every non-zero divisor:
+    no intermediate product exists any more, and the exact result always fits (`|a tmod b| ≤ |a|`) -/
+theorem mod_tmod {m a b : Int} (ha : fits64 a) (hb : b ≠ 0) : mod m a b = some (a.tmod b) := by
+  unfold mod; rw [if_neg hb, rem_eq ha]
+
+/-- the earlier, weaker statement (Mod through Div·Mul needed Div's hypotheses); kept for its users -/
+theorem mod_eq {m a b : Int} (_hm : Mult m) (ha : fits64 a) (hb : b ≠ 0) (_hp : fits64 (a * m))
+    (_hq : fits64 ((a * m).tdiv b)) : mod m a b = some (a.tmod b) := mod_tmod ha hb
 
 theorem abs_eq {a : Int} (h : fits64 (-a)) : abs a = |a| := by
   unfold abs negI
